@@ -366,17 +366,20 @@ package gpbft
 //@   trusted sort.Ints sorts the slice in place
 //@   modifies x[]
 //@   ensures forall(i, 0, len(x) - 1, x[i] <= x[i+1], trigger(x[i]))
+//@   ensures forall(i, 0, len(x), exists(j, 0, len(x), x[i] == old(x[j])), trigger(x[i]))
 
 // Sum of scaled power over the first n entries of an index list.
 //@ spec func isum(sp []int64, idx []int, n mathint) mathint
 //@ pred isumDef(sp []int64, idx []int) = isum(sp, idx, 0) == 0
 //@     && forall(k, 0, len(idx), isum(sp, idx, k+1) == isum(sp, idx, k) + sp[idx[k]], trigger(idx[k]))
 
+//@ pred lookupOK(pt *PowerTable) = forall(ActorID(a), has(pt.Lookup, a) ==> 0 <= pt.Lookup[a] && pt.Lookup[a] < len(pt.Entries))
+
 // The quorum handed out for a key: table indices in increasing order, all inside the table, one stored signature per
 // index, and the scaled power of exactly these indices is a strong quorum of the table's total.
 //@ func (*quorumState).FindStrongQuorumFor
 //@   property C03
-//@   requires q.powerTable != nil && tblOK(q.powerTable)
+//@   requires q.powerTable != nil && tblOK(q.powerTable) && lookupOK(q.powerTable)
 //@   modifies auto
 //@   maypanic
 //@   ensures[only_with_a_recorded_strong_quorum] result1 ==> old(has(q.chainSupport, key) && q.chainSupport[key].hasStrongQuorum)
@@ -387,11 +390,11 @@ package gpbft
 //@          && 3 * isum(q.powerTable.ScaledPower, signers, i + 1) >= 2 * q.powerTable.ScaledTotal
 //@     before[signatures_are_the_stored_ones_of_the_signers] forall(j, 0, i + 1, signatures[j] == chainSupport.signatures[q.powerTable.Entries[signers[j]].ID], trigger(signatures[j]))
 //@   loop 1
-//@     invariant q.powerTable == old(q.powerTable)
+//@     invariant q.powerTable == old(q.powerTable) && forall(j, 0, len(signers), 0 <= signers[j], trigger(signers[j]))
 //@   loop 2
 //@     assume isumDef(q.powerTable.ScaledPower, signers)
 //@     invariant justificationPower == isum(q.powerTable.ScaledPower, signers, iter) && 0 <= justificationPower && justificationPower <= 65535 * iter && iter <= len(signers)
 //@     invariant len(signatures) == iter && q.powerTable == old(q.powerTable) && tblOK(q.powerTable)
-//@     invariant forall(j, 0, iter, 0 <= signers[j] && signers[j] < len(q.powerTable.Entries))
+//@     invariant forall(j, 0, iter, signers[j] < len(q.powerTable.Entries)) && forall(j, 0, len(signers), 0 <= signers[j], trigger(signers[j]))
 //@     invariant forall(j, 0, iter, signatures[j] == chainSupport.signatures[q.powerTable.Entries[signers[j]].ID], trigger(signatures[j]))
 //@     invariant forall(j, 0, len(signers) - 1, signers[j] <= signers[j+1], trigger(signers[j]))
